@@ -159,10 +159,10 @@ fn calls_reset() {
     CALLS.with(|c| c.set(0));
     SHAPE.with(|c| c.set(0));
 }
-/// (closure calls, fold-shape digest folded in): one number to compare with the unrolling
+/// closure calls in the low 32 bits, the fold-shape digest in the high 32: one number to compare
 fn calls_get() -> u64 {
     let shape = SHAPE.with(|c| c.get());
-    CALLS.with(|c| c.get()) ^ shape.rotate_left(20)
+    (CALLS.with(|c| c.get()) & 0xffff_ffff) | ((shape ^ (shape >> 32)) << 32)
 }
 
 /// pad kind with a big frame (at most MAX_HEAVY per body: ~35 KiB per level of recursion stays well
@@ -1079,7 +1079,12 @@ pub fn exec_case(c: &LifeCase) -> CaseRun {
                         failure = Some(("differs-from-unrolling".into(), format!("op {:?}: unrolled={} recursive={}", op, r.brief(), o.brief())));
                     }
                     if rcalls != calls && failure.is_none() {
-                        failure = Some(("differs-from-unrolling(user-closure calls)".into(), format!("op {:?}: the expansion called the grammar's map/fold closures {} times, the recursive parser {} times (same outcome {})", op, rcalls, calls, o.brief())));
+                        let (rc, rs, c, sh) = (rcalls & 0xffff_ffff, rcalls >> 32, calls & 0xffff_ffff, calls >> 32);
+                        failure = Some(if rc != c {
+                            ("differs-from-unrolling(user-closure calls)".into(), format!("op {:?}: the expansion called the grammar's map/fold closures {} times, the recursive parser {} times (same outcome {})", op, rc, c, o.brief()))
+                        } else {
+                            ("differs-from-unrolling(fold order or callback spans)".into(), format!("op {:?}: the Pratt fold callbacks ran in another order or were given other spans (digest {:08x} on a stack that never switches segments, {:08x} here; {} calls each; same outcome {})", op, rs, sh, c, o.brief()))
+                        });
                     }
                     // calibration of the generator expectation against the unrolling (never a violation)
                     if rejection_is_certain(c) {
